@@ -95,6 +95,14 @@ class Check:
                 continue
             # new violation: gate 1 (same job twice -> same verdict and hash)
             f["replay"]["expect"] = f["key"]
+            if f["key"].get("clause") == "crash_timeout":
+                # a watchdog timeout is only a verdict if it persists with a much longer allowance
+                # (other work on the machine can slow a run down); otherwise it is counted, not reported
+                f["replay"]["timeout"] = 90
+                kt, _ = self.reproduce(f["replay"], fresh=True)
+                if kt is None or kt.get("clause") != "crash_timeout":
+                    self.cov["transient_timeouts_not_reproduced"] = self.cov.get("transient_timeouts_not_reproduced", 0) + 1
+                    continue
             k1, h1 = self.reproduce(f["replay"])
             k2, h2 = self.reproduce(f["replay"])
             if k1 is None or k2 is None or key_str(k1) != key_str(f["key"]) or key_str(k2) != key_str(f["key"]) or h1 != h2:
